@@ -1,11 +1,11 @@
 (* C15 — the general round trip of a response with one part: every registered status, any well-formed header list, any body bytes *)
 From Coq Require Import Arith.
 From Rws Require Import Str Utf8 Num Fs UrlParse RangeSpec Request GenMime Mime StaticRes GenConsts Forms Server RespParse
-     RespDomain StrLemmas TrimLemmas Utf8Lemmas RequestProofs C05Proof Json JsonArray JsonRt C19Lemmas.
+     RespDomain Unicase UnicaseLemmas StrLemmas TrimLemmas Utf8Lemmas RequestProofs C05Proof Json JsonArray JsonRt C19Lemmas.
 Open Scope N_scope.
 
 (* ---------- finite facts about the regenerated tables ---------- *)
-Lemma versions_plain : forallb (fun v => negb (existsb (N.eqb 32) v) && clean_b v && is_ascii v && beqs (upper v) v) version_list = true.
+Lemma versions_plain : forallb (fun v => negb (existsb (N.eqb 32) v) && clean_b v && is_ascii v && beqs (uupper v) v) version_list = true.
 Proof. vm_compute. reflexivity. Qed.
 Lemma reasons_plain : forallb (fun p => clean_b (snd p) && is_ascii (snd p) && N.ltb (fst p) (2 ^ 15)) status_table = true.
 Proof. vm_compute. reflexivity. Qed.
@@ -30,7 +30,7 @@ Proof.
   unfold resp_status_ok. intro H. apply andb_prop in H as [Hv Hs].
   apply mem_in in Hv. pose proof (proj1 (forallb_forall _ _) versions_plain v Hv) as Fv. cbv beta in Fv.
   repeat (apply andb_prop in Fv as [Fv ?]).
-  match goal with H1 : beqs (upper v) v = true |- _ => apply beqs_eq in H1; rename H1 into Hup end.
+  match goal with H1 : beqs (uupper v) v = true |- _ => apply beqs_eq in H1; rename H1 into Hup end.
   match goal with H1 : is_ascii v = true |- _ => rename H1 into Hva end.
   match goal with H1 : clean_b v = true |- _ => apply clean_b_spec in H1 as [Hv10 Hv13] end.
   apply negb_true_iff in Fv. assert (Hv32 : ~ In 32 v).
@@ -110,6 +110,10 @@ Proof.
   unfold is_digit in Hc. apply andb_prop in Hc as [H1 H2]. apply N.leb_le in H1, H2. unfold to_ascii_lower.
   replace (N.leb 65 c) with false by (symmetry; apply N.leb_gt; lia). reflexivity.
 Qed.
+Lemma digits_low d : forallb is_digit d = true -> forallb (fun b => N.ltb b 128) d = true.
+Proof.
+  intro H. apply forallb_forall. intros x Hx. pose proof (proj1 (forallb_forall _ _) H x Hx) as G. unfold is_digit in G. apply andb_prop in G as [_ G]. apply N.leb_le in G. apply N.ltb_lt. lia.
+Qed.
 Lemma parse_i64_show z : z < 2 ^ 63 -> parse_i64 (show_N z) = Some (false, z).
 Proof. intro H. unfold parse_i64. pose proof (parse_signed_show (2 ^ 63) false z ltac:(vm_compute; reflexivity)) as G. unfold show_int in G. apply G. unfold int_ok. apply N.ltb_lt. exact H. Qed.
 
@@ -130,6 +134,9 @@ Proof.
     replace ([121;116;101;115] ++ [32] ++ show_N st ++ [45] ++ show_N en ++ [47] ++ zb ++ [y]) with (([121;116;101;115] ++ [32] ++ show_N st ++ [45] ++ show_N en ++ [47] ++ zb) ++ [y]) by (rewrite <- !app_assoc; reflexivity).
     apply trim_solid_both; [reflexivity|exact Hy]. }
   rewrite Et.
+  assert (Ea : is_ascii (Rg_BYTES ++ [32] ++ show_N st ++ [45] ++ show_N en ++ [47] ++ show_N z) = true).
+  { unfold is_ascii. rewrite !forallb_app, (digits_low _ D1), (digits_low _ D2), (digits_low _ D3). reflexivity. }
+  rewrite (ulower_ascii _ Ea).
   assert (El : lower (Rg_BYTES ++ [32] ++ show_N st ++ [45] ++ show_N en ++ [47] ++ show_N z) = Rg_BYTES ++ [32] ++ show_N st ++ [45] ++ show_N en ++ [47] ++ show_N z).
   { pose proof (lower_digits _ D1) as L1. pose proof (lower_digits _ D2) as L2. pose proof (lower_digits _ D3) as L3. unfold lower in *.
     rewrite !map_app, L1, L2, L3. reflexivity. }
